@@ -17,6 +17,7 @@
 package url
 
 import (
+	"strconv"
 	"strings"
 )
 
@@ -35,8 +36,6 @@ type Url struct {
 	searchParams     *SearchParams
 	validationErrors []error
 	parser           *parser
-	isIPv4           bool
-	isIPv6           bool
 }
 
 // Href implements WHATWG url api (https://url.spec.whatwg.org/#api)
@@ -174,7 +173,7 @@ func (u *Url) SetPort(port string) {
 }
 
 func (u *Url) DecodedPort() int {
-	if u.decodedPort == 0 {
+	if u.port == nil {
 		return u.getDefaultPort()
 	} else {
 		return u.decodedPort
@@ -297,30 +296,49 @@ func (u *Url) newUrlSearchParams() {
 	u.searchParams = usp
 }
 
+// IsIPv4 tells if the host is an IPv4 address. Only special schemes have IPv4 hosts.
 func (u *Url) IsIPv4() bool {
-	return u.isIPv4
+	return u.host != nil && u.IsSpecialScheme() && isIPv4Address(*u.host)
 }
 
+// IsIPv6 tells if the host is an IPv6 address.
 func (u *Url) IsIPv6() bool {
-	return u.isIPv6
+	return u.host != nil && strings.HasPrefix(*u.host, "[")
+}
+
+// isIPv4Address tells if s is a serialized IPv4 address: four dot-separated decimal numbers
+// in the range 0 to 255 without leading zeros. A domain never has this form since a host
+// ending in a number is always parsed as an IPv4 address.
+func isIPv4Address(s string) bool {
+	parts := strings.Split(s, ".")
+	if len(parts) != 4 {
+		return false
+	}
+	for _, part := range parts {
+		if part == "" || len(part) > 3 || !containsOnly(part, ASCIIDigit) || (len(part) > 1 && part[0] == '0') {
+			return false
+		}
+		if n, _ := strconv.Atoi(part); n > 255 {
+			return false
+		}
+	}
+	return true
 }
 
 // Clone returns a deep copy of the URL.
 func (u *Url) Clone() *Url {
 	c := &Url{
-		inputUrl:     u.inputUrl,
-		scheme:       u.scheme,
-		username:     u.username,
-		password:     u.password,
-		host:         cloneStringPointer(u.host),
-		port:         cloneStringPointer(u.port),
-		decodedPort:  u.decodedPort,
-		path:         u.path.clone(),
-		query:        cloneStringPointer(u.query),
-		fragment:     cloneStringPointer(u.fragment),
-		parser:       u.parser,
-		isIPv4:       u.isIPv4,
-		isIPv6:       u.isIPv6,
+		inputUrl:    u.inputUrl,
+		scheme:      u.scheme,
+		username:    u.username,
+		password:    u.password,
+		host:        cloneStringPointer(u.host),
+		port:        cloneStringPointer(u.port),
+		decodedPort: u.decodedPort,
+		path:        u.path.clone(),
+		query:       cloneStringPointer(u.query),
+		fragment:    cloneStringPointer(u.fragment),
+		parser:      u.parser,
 	}
 	// Search parameters are created lazily. Cloning must not create them in the original, which
 	// may be shared between goroutines as the base of a resolution.
